@@ -7,15 +7,20 @@
     statements Atlas plans for the difference brings the live database to a state whose difference
     from the desired schema is empty; a second plan computed right after is empty.
 
-    The full statement is FALSE of the faithful model and of the Go code: eight witnesses inside the
+    The full statement is FALSE of the faithful model and of the Go code: four witnesses inside the
     listed feature set are proved below as [C01_converges_refuted_*] (each reproduced on real SQLite,
-    known_findings.d/C01.json).  What does hold is [C01_converges_except]: for every database of the
+    known_findings.d/C01.json).  Four more (composite key not in column order, raw default in parentheses,
+    CHECK "(a) AND (b)", dropping an inline UNIQUE) were defects REPAIRED in the Go code in the fix round
+    (notes/fixes/ORDER-sqlite.txt); the model follows the fixed code, the former witnesses are proved to
+    converge ([C01_converges_*_fixed]) and what the old code did is kept as [C01_*_old_code_refuted] over the
+    old definitions.  What does hold is [C01_converges_except]: for every database of the
     abstract engine and every desired schema satisfying the decidable predicate [supported] --
     (a) the database has no rows, no inline UNIQUE constraints, distinct names, printable tables, no
         open transaction;
     (b) every desired table is creatable (CREATE TABLE accepted by the engine), has no autoindex-named
         index, and *itself* survives CREATE + inspect without a difference, as do its columns and
-        indexes one by one (this is where the six witnesses fail: it is a per-object, computable check);
+        indexes one by one (a per-object, computable check; the witnesses pk_desc and unnamed_fks fail
+        here, index_moves and new_table_clash fail (c));
     (c) names do not collide: new_<t> is free and unreferenced, an index name of the desired schema is
         not used by another table of the database, AUTOINCREMENT columns of an existing table exist --
     SchemaDiff + PlanChanges produce a plan, the engine executes it without error, and the SchemaDiff of
@@ -30,11 +35,14 @@
     foreign keys and checks by structural conditions proved sufficient in Sqlite/ConvergeSyntactic.v).
     MISSING for the full statement: (1) the string-level part of condition (b) -- a default, a generated
     expression, an index or a check expression is unchanged by print + inspect -- stays a closed
-    computation per object rather than a grammar of expressions; unnamed foreign keys (at most one per
-    table converges) are covered by [C01_converges_supported] only; (2) inline UNIQUE constraints in the current database
-    (refuted in general: C01_converges_refuted_drop_unique); (3) SQL text and SQLite itself: the engine
+    computation per object rather than a grammar of expressions; foreign keys with an empty Symbol (at
+    most one per table converges; numeric symbols of an inspected desired state are ordinary names) are
+    covered by [C01_converges_supported] only; (2) inline UNIQUE constraints in the current database
+    (since the fix of [alterable] the former counterexample converges, C01_converges_drop_unique_fixed, but the
+    invariant of the proof does not carry them yet); (3) SQL text and SQLite itself: the engine
     is a model, tied to real go-sqlite3 by the correspondence stages. *)
 From Coq Require Import List NArith ZArith Bool Arith.
+From Atlas Require Sqlite.ConvergeTable.
 From Atlas Require Import Base.Bytes Diff.Schema Diff.DiffModel Diff.DiffSqlite
   Sqlite.PlanModel Sqlite.PlanProofs Sqlite.EngineModel Sqlite.InspectModel Sqlite.ConvergeDefs Sqlite.ConvergeStep
   Sqlite.Converge Sqlite.ConvergeSupported Sqlite.EngineRowsProofs Sqlite.ConvergeRows Sqlite.ConvergeParts Sqlite.ConvergeSyntactic
@@ -226,13 +234,27 @@ Example C01_ex_second_plan : synced nm (run empty_db ex_A) ex_A.
 Proof. vm_compute. reflexivity. Qed.
 
 (** *** where the full statement fails *)
-(** composite primary key listed in another order than the columns: PRIMARY KEY (b, a) *)
+(** composite primary key listed in another order than the columns: PRIMARY KEY (b, a).  FIXED in the Go code
+    (fix "sqlite inspection orders the parts of a composite primary key by their position in the key", known
+    findings C01-pk-order = C03-pk-order): [inspect_pk] now returns the parts in key order, the former witness
+    is inside [supported] and converges.  The second theorem is about the OLD inspection ([inspect_pk_old]:
+    parts in column order): the key it returned for this table differs from the desired one for ever. *)
 Definition w_pk_order : xschema :=
   [tbl n_t [col n_a T_int 2 false; col n_b T_int 2 false] (Some (pk_of [cpart 1 n_b false; cpart 2 n_a false])) [] [] []].
-Theorem C01_converges_refuted_pk_order :
-  exists B d', apply_plan nm empty_db B = Some (Ok d') /\ ~ synced nm d' B.
-Proof. exists w_pk_order. eexists. split; [vm_compute; reflexivity|]. vm_compute. discriminate. Qed.
-Print Assumptions C01_converges_refuted_pk_order.
+Theorem C01_converges_pk_order_fixed :
+  supported empty_db w_pk_order = true /\
+  exists d', apply_plan nm empty_db w_pk_order = Some (Ok d') /\ synced nm d' w_pk_order.
+Proof.
+  assert (S : supported empty_db w_pk_order = true) by (vm_compute; reflexivity).
+  split; [exact S|]. destruct (converges_supported nm empty_db w_pk_order S) as [p [d' [P [E Y]]]].
+  exists d'. split; [|exact Y]. unfold apply_plan. rewrite P, E. reflexivity.
+Qed.
+Print Assumptions C01_converges_pk_order_fixed.
+Theorem C01_pk_order_old_code_refuted :
+  forall t, In t w_pk_order ->
+  ConvergeTable.pk_part (inspect_pk_old (x_t t)) (t_pk (x_t t)) <> [] /\ ConvergeTable.pk_part (inspect_pk (x_t t)) (t_pk (x_t t)) = [].
+Proof. intros t [<-|[]]. split; [vm_compute; discriminate|vm_compute; reflexivity]. Qed.
+Print Assumptions C01_pk_order_old_code_refuted.
 
 (** PRIMARY KEY (a DESC) *)
 Definition w_pk_desc : xschema := [tbl n_t [col n_a T_text 3 false] (Some (pk_of [cpart 1 n_a true])) [] [] []].
@@ -241,13 +263,30 @@ Theorem C01_converges_refuted_pk_desc :
 Proof. exists w_pk_desc. eexists. split; [vm_compute; reflexivity|]. vm_compute. discriminate. Qed.
 Print Assumptions C01_converges_refuted_pk_desc.
 
-(** DEFAULT sql("(1 + 1)"): a raw expression written with its own parentheses *)
+(** DEFAULT sql("(1 + 1)"): a raw expression written with its own parentheses.  FIXED in the Go code (fix
+    "sqlite differ compares two unquoted column defaults up to their outer parentheses", known finding
+    C01-raw-default-parens): SQLite reports the default as 1 + 1, and [sqlite_default_changed] of
+    Diff/DiffSqlite.v now compares unquoted defaults after MayWrap; the former witness is inside [supported]
+    and converges.  The second theorem is about the OLD differ ([sqlite_default_changed_old]): it reported the
+    inspected column as changed after every apply. *)
 Definition w_raw_default : xschema :=
   [tbl n_t [mkColumn n_a 2 T_int true (Some (DRaw [40;49;32;43;32;49;41]%N)) None None] None [] [] []].
-Theorem C01_converges_refuted_raw_default :
-  exists B d', apply_plan nm empty_db B = Some (Ok d') /\ ~ synced nm d' B.
-Proof. exists w_raw_default. eexists. split; [vm_compute; reflexivity|]. vm_compute. discriminate. Qed.
-Print Assumptions C01_converges_refuted_raw_default.
+Theorem C01_converges_raw_default_fixed :
+  supported empty_db w_raw_default = true /\
+  exists d', apply_plan nm empty_db w_raw_default = Some (Ok d') /\ synced nm d' w_raw_default.
+Proof.
+  assert (S : supported empty_db w_raw_default = true) by (vm_compute; reflexivity).
+  split; [exact S|]. destruct (converges_supported nm empty_db w_raw_default S) as [p [d' [P [E Y]]]].
+  exists d'. split; [|exact Y]. unfold apply_plan. rewrite P, E. reflexivity.
+Qed.
+Print Assumptions C01_converges_raw_default_fixed.
+Theorem C01_raw_default_old_code_refuted :
+  let desired := mkColumn n_a 2 T_int true (Some (DRaw [40;49;32;43;32;49;41]%N)) None None in
+  let inspected := mkColumn n_a 2 T_int true (Some (DRaw [49;32;43;32;49]%N)) None None in
+  inspect_column desired = inspected /\
+  sqlite_default_changed_old inspected desired = true /\ sqlite_default_changed inspected desired = false.
+Proof. vm_compute. repeat split; reflexivity. Qed.
+Print Assumptions C01_raw_default_old_code_refuted.
 (** ... and the same default without the parentheses converges *)
 Definition w_raw_default_ok : xschema :=
   [tbl n_t [mkColumn n_a 2 T_int true (Some (DRaw [49;32;43;32;49]%N)) None None] None [] [] []].
@@ -264,31 +303,48 @@ Theorem C01_converges_refuted_unnamed_fks :
 Proof. exists w_unnamed_fks. eexists. split; [vm_compute; reflexivity|]. vm_compute. discriminate. Qed.
 Print Assumptions C01_converges_refuted_unnamed_fks.
 
-(** CHECK "(a > 0) AND (a < 9)": check() prints it unwrapped, SQLite rejects the statement;
-    the wrapped spelling "((a > 0) AND (a < 9))" is within [supported] *)
+(** CHECK "(a > 0) AND (a < 9)".  FIXED in the Go code (fix "sqlite planner wraps a CHECK expression like
+    (a) AND (b) in parentheses", known finding C01-check-parens): check() now prints
+    sqlx.MayWrap(TrimSpace(expr)), and the former witness is inside [supported], so it converges by
+    [C01_converges_supported].  The second theorem is about the OLD code ([check_sql_old]: the first and last
+    byte test): it printed this expression unwrapped, which SQLite rejects. *)
 Definition ck_expr : str := [40;97;32;62;32;48;41;32;65;78;68;32;40;97;32;60;32;57;41]%N.
 Definition w_check_parens : xschema := [tbl n_t [col n_a T_int 2 true] None [] [] [mkCheck [] ck_expr]].
-Definition w_check_wrapped : xschema := [tbl n_t [col n_a T_int 2 true] None [] [] [mkCheck [] (40 :: ck_expr ++ [41])%N]].
-Theorem C01_converges_refuted_check_parens :
-  exists B B', apply_plan nm empty_db B = Some (Err ESyntax) /\ supported empty_db B' = true /\
-               (forall t t', In t B -> In t' B' -> t_cols (x_t t) = t_cols (x_t t')).
+Theorem C01_converges_check_parens_fixed :
+  supported empty_db w_check_parens = true /\
+  exists d', apply_plan nm empty_db w_check_parens = Some (Ok d') /\ synced nm d' w_check_parens.
 Proof.
-  exists w_check_parens, w_check_wrapped. split; [vm_compute; reflexivity|]. split; [vm_compute; reflexivity|].
-  intros t t' [<-|[]] [<-|[]]. reflexivity.
+  assert (S : supported empty_db w_check_parens = true) by (vm_compute; reflexivity).
+  split; [exact S|]. destruct (converges_supported nm empty_db w_check_parens S) as [p [d' [P [E Y]]]].
+  exists d'. split; [|exact Y]. unfold apply_plan. rewrite P, E. reflexivity.
 Qed.
-Print Assumptions C01_converges_refuted_check_parens.
+Print Assumptions C01_converges_check_parens_fixed.
+Theorem C01_check_parens_old_code_refuted :
+  is_wrapped (check_sql_old ck_expr) = false /\ is_wrapped (check_sql ck_expr) = true /\
+  (forall e, check_sql e = may_wrap (trim_space e)).
+Proof. split; [vm_compute; reflexivity|]. split; [vm_compute; reflexivity|]. intros e. reflexivity. Qed.
+Print Assumptions C01_check_parens_old_code_refuted.
 
-(** a current table with an inline UNIQUE (c) constraint, a desired table without it: the plan is
-    DROP INDEX t_c, which does not exist *)
+(** a current table with an inline UNIQUE (c) constraint, a desired table without it.  FIXED in the Go code
+    (fix "sqlite planner rebuilds the table when the dropped index backs an inline UNIQUE constraint", known
+    findings C01-drop-inline-unique = C17-autoindex-drop): [alterable] now sends the drop of a
+    sqlite_autoindex_* index to the rebuild, and the former witness converges.  The second theorem is about
+    the OLD code: its plan was DROP INDEX t_c, which does not exist.  (Current databases with inline UNIQUE
+    constraints are still outside [supported]; the engine and oracle stages cover them observationally.) *)
 Definition w_unique_db : db :=
   mkDB [mkCT (mkX (mkTable n_t false false [col n_c T_int 2 true] None [] [] []) []) [[n_c]] []] false false.
 Definition w_unique_B : xschema := [tbl n_t [col n_c T_int 2 true] None [] [] []].
-Theorem C01_converges_refuted_drop_unique :
-  exists d B, (forall bx, In bx B -> desired_ok_b bx = true) /\ apply_plan nm d B = Some (Err ENoSuchIndex).
+Theorem C01_converges_drop_unique_fixed :
+  exists d', apply_plan nm w_unique_db w_unique_B = Some (Ok d') /\ synced nm d' w_unique_B /\
+             map ct_uniques (db_tables d') = [[]].
 Proof.
-  exists w_unique_db, w_unique_B. split; [intros bx [<-|[]]; vm_compute; reflexivity|]. vm_compute. reflexivity.
+  eexists. split; [vm_compute; reflexivity|]. split; vm_compute; reflexivity.
 Qed.
-Print Assumptions C01_converges_refuted_drop_unique.
+Print Assumptions C01_converges_drop_unique_fixed.
+Theorem C01_drop_unique_old_code_refuted :
+  exec_all w_unique_db [SDropIndex (n_t ++ [95]%N ++ n_c)] = Err ENoSuchIndex.
+Proof. vm_compute. reflexivity. Qed.
+Print Assumptions C01_drop_unique_old_code_refuted.
 
 (** an index name that moves to a table inspected earlier: CREATE INDEX i ON a before DROP INDEX i *)
 Definition n_z : str := [122]%N.
